@@ -22,6 +22,9 @@ type entry struct {
 var registry = map[string]entry{}
 
 func main() {
+	if len(os.Args) >= 4 && os.Args[1] == "racefilter" {
+		os.Exit(raceFilter(os.Args[2], os.Args[3]))
+	}
 	if len(os.Args) >= 4 && os.Args[1] == "replay" {
 		doReplay(os.Args[2], os.Args[3])
 		return
